@@ -65,6 +65,8 @@ SPECIAL = {   # name -> (input text | None for a missing file, sim code 0 ok / 1
     'fails-in-calculate': (BASE + 'End-Use Option, 2\nPower Plant Type, 8\n', 1),
     'aborts-sys-exit': (json.loads(Path(fw.VERIF, 'corpus', 'C20', '03_bare_sys_exit.json').read_text())['text'], 2),
     'missing-input-file': (None, 1),
+    # fails LATE, in the output stage (Outputs._convert_units: currency conversion is disabled), after Calculate() succeeded
+    'fails-in-output-stage': (BASE + 'End-Use Option, 2\nUnits:Exploration cost, MEUR\n', 1),
 }
 
 
@@ -252,7 +254,7 @@ def part_cli(ctx, ex):
             if got != code:
                 ctx.note(f'special input {name}: direct pipeline outcome {got} ({ref["error"]}), expected {code}')
                 code = got
-        for cwd_rel, o in [('d1', 'sub/r.out'), ('d1', None), ('d1/sub', 'ABS:other/abs.out')][:ctx.n(1 if name in ('missing-input-file', 'fails-in-calculate') else 2, 3)]:
+        for cwd_rel, o in [('d1', 'sub/r.out'), ('d1', None), ('d1/sub', 'ABS:other/abs.out')][:ctx.n(1 if name in ('missing-input-file', 'fails-in-calculate') else 3 if name == 'fails-in-output-stage' else 2, 3)]:
             plan.append((name, text, code, ref, cwd_rel, o))
     with ThreadPoolExecutor(max_workers=16) as ex:
         obs = list(ex.map(lambda a: cli_case(ctx, a[0], a[1][1], a[1][4], a[1][5]), enumerate(plan)))
@@ -318,6 +320,10 @@ def _client_job(a):
             res['json'] = Path(r.json_output_file_path).read_text()
     except BaseException as e:  # noqa
         res['error'] = f'{type(e).__name__}: {e}'[:200]
+        try:
+            res['left_file'] = Path(gp.get_output_file_path()).exists()
+        except NameError:
+            pass
     os.chdir(scratch)
     return res
 
@@ -392,9 +398,9 @@ def part_client(ctx, ok_inputs, direct, ex):
         if k < 4:
             jobs.append((text, 'relfile', str(ctx.scratch), str(fw.SRC)))
             meta.append((name, 'client-from-relative-file', k))
-    ab = SPECIAL['aborts-sys-exit'][0]
-    jobs.append((ab, 'file', str(ctx.scratch), str(fw.SRC)))
-    meta.append(('aborts-sys-exit', 'client-from-file', None))
+    for sp in ('aborts-sys-exit', 'fails-in-output-stage', 'fails-bad-value'):
+        jobs.append((SPECIAL[sp][0], 'file', str(ctx.scratch), str(fw.SRC)))
+        meta.append((sp, 'client-from-file', None))
     if True:
         res = list(ex.map(_client_job, jobs))
         cand = [k for k in range(len(ok_inputs)) if direct[k]['ok'] and direct[k]['report']]
@@ -413,7 +419,10 @@ def part_client(ctx, ok_inputs, direct, ex):
         ctx.count('client', evaluations=1, nontrivial_keys=[(name, mode)], modes={mode: 1})
         if k is None:
             if r['ok']:
-                ctx.violate('property', 'client:abort-not-reported', 'GeophiresXClient returns a result for a run the simulator aborted', inp=rec)
+                ctx.violate('property', 'client:abort-not-reported', 'GeophiresXClient returns a result for a run the simulator aborted / that failed', inp=rec)
+            elif r.get('left_file'):
+                ctx.violate('property', f'client:failed-run-leaves-report:{name}', 'GeophiresXClient raises, but a report file exists at its result path '
+                            'after the failed run', inp=rec, expected='no file at get_output_file_path()', observed=r['error'])
             continue
         ref = direct[k]
         if r['ok'] != ref['ok']:
@@ -563,7 +572,24 @@ def part_twice(ctx, ok_inputs, direct, ex):
     with ThreadPoolExecutor(max_workers=4) as tp:
         cli = list(tp.map(lambda a: cli_twice(ctx, a[0], tx, ty, a[1]), enumerate(['result.out', None][:ctx.n(2, 2)])))
     inproc = list(ex.map(_twice_job, [(m, tx, ty, str(ctx.scratch)) for m in ('client', 'direct')]))
+    tf = SPECIAL['fails-in-output-stage'][0]
+    with ThreadPoolExecutor(max_workers=2) as tp:
+        cli_f = list(tp.map(lambda a: cli_twice(ctx, 10 + a[0], tx, tf, a[1]), enumerate(['result.out'])))
+    inproc_f = list(ex.map(_twice_job, [(m, tx, tf, str(ctx.scratch)) for m in ('client', 'direct')]))
     terms = []
+    for label, ob in [('cli:result.out', cli_f[0]), ('client', inproc_f[0]), ('direct', inproc_f[1])]:
+        ids = reports_in(ob['report'], refs)
+        terms.append(f'report_file_check [({qconv.coq_bytes(ob["path"])}, 1%N)] {qconv.coq_bytes(ob["path"])} [' + '; '.join(f'{i}%N' for i in ids) + ']')
+        ctx.count('two-runs-same-path', evaluations=1, nontrivial_keys=[label + ':then-failing'], entry={label.split(':')[0] + '+late-failure': 1})
+        json_ok = ob['json'] is not None and json.loads(ob['json']) == json.loads(direct[kx]['json'])
+        failed = (ob.get('exit') or [0, 1])[1] != 0 if 'exit' in ob else bool(ob.get('error'))
+        if ids != [1] or not json_ok or not failed:
+            ctx.violate('property', f'report-file:failing-run-touches-existing-report:{label.split(":")[0]}',
+                        f'{label}: a good run, then a run failing in the output stage onto the same path: the earlier report must stay as it was '
+                        '(and the failing run must be reported as failed)',
+                        inp={'part': 'twice', 'label': label, 'text_x': tx, 'text_y': tf}, expected={'reports_in_file': [1], 'failed': True},
+                        observed={'reports_in_file': ids, 'bytes': None if ob['report'] is None else len(ob['report']), 'json_is_first': json_ok,
+                                  'failed': failed})
     for label, ob in [('cli:result.out', cli[0]), ('cli:default', cli[1]), ('client', inproc[0]), ('direct', inproc[1])]:
         ids = reports_in(ob['report'], refs)
         terms.append(f'report_file_check [({qconv.coq_bytes(ob["path"])}, 1%N); ({qconv.coq_bytes(ob["path"])}, 2%N)] {qconv.coq_bytes(ob["path"])} '
@@ -578,7 +604,8 @@ def part_twice(ctx, ok_inputs, direct, ex):
                         observed={'reports_in_file': ids, 'json_is_second': json_ok, 'error': ob.get('error') or ob.get('exit')})
     for i in fw.kernel_bools(ctx, 'twice', ['Model.CliPaths'], terms, open_scope='string_scope'):
         ctx.violate('corr', 'report-file:model-disagrees', 'Coq model after_runs (truncate-then-write) and the observed report file disagree',
-                    inp={'part': 'twice', 'label': ['cli:result.out', 'cli:default', 'client', 'direct'][i], 'text_x': tx, 'text_y': ty})
+                    inp={'part': 'twice', 'label': (['cli+late-failure', 'client+late-failure', 'direct+late-failure', 'cli:result.out', 'cli:default', 'client', 'direct'])[i],
+                         'text_x': tx, 'text_y': ty})
 
 
 # ------------------------------------------------------------------------------------------ (g) histories, Model(input_file=)
